@@ -325,3 +325,20 @@ func inStrings(l []string, n int, s string) bool {
 //@   loop 0 locals (m map[string]bool)
 //@   loop 0 invariant forall k int :: 0 <= k && k < len(l) ==> __visited(m, l[k]) && m[l[k]]
 //@   loop 0 invariant forall s string :: __visited(m, s) && m[s] ==> inStrings(l, len(l), s)
+
+//@ func statusItems(options *imap.StatusOptions) (result []string)
+//@   props C02
+//@   requires options != nil
+//@   ensures inStrings(result, len(result), "MESSAGES") == options.NumMessages
+//@   ensures inStrings(result, len(result), "UIDNEXT") == options.UIDNext
+//@   ensures inStrings(result, len(result), "UIDVALIDITY") == options.UIDValidity
+//@   ensures inStrings(result, len(result), "UNSEEN") == options.NumUnseen
+//@   ensures inStrings(result, len(result), "DELETED") == options.NumDeleted
+//@   ensures inStrings(result, len(result), "SIZE") == options.Size
+//@   ensures inStrings(result, len(result), "APPENDLIMIT") == options.AppendLimit
+//@   ensures inStrings(result, len(result), "DELETED-STORAGE") == options.DeletedStorage
+//@   ensures inStrings(result, len(result), "HIGHESTMODSEQ") == options.HighestModSeq
+//@   loop 0 vars (l []string)
+//@   loop 0 locals (m map[string]bool)
+//@   loop 0 invariant forall k int :: 0 <= k && k < len(l) ==> __visited(m, l[k]) && m[l[k]]
+//@   loop 0 invariant forall s string :: __visited(m, s) && m[s] ==> inStrings(l, len(l), s)
